@@ -19,7 +19,7 @@ def rand_cfg(rnd, small=True):
     bankbits = rnd.choice([1, 2, 3]) if small else rnd.choice([2, 3])
     rankbits = rnd.choice([0, 0, 1])
     colbits = rnd.choice([max(align + 1, 5), 6, 10, 11]) if not small else rnd.choice([max(align + 1, 5), 6])
-    rowbits = max(colbits + 1, rnd.choice([6, 7])) if colbits <= 10 else colbits + 1
+    rowbits = rnd.choice([11, 12]) if colbits <= 10 else colbits + 1   # >= 11 address lines: A10 must exist (PREA / auto-precharge flag)
     cl = rnd.choice([2, 3, 5, 6])
     cwl = rnd.choice([2, 3, 5])
     rdphase = rnd.randrange(nphases); wrphase = rnd.randrange(nphases)
@@ -154,3 +154,53 @@ def cosim_controller(cfg, seed, ncycles):
             mismatch = dict(cycle=i, signal=what, impl=a[k], model=b[k], inputs=lines[max(2, i - 3) + 0:i + 3])
             break
     return dict(mismatch=mismatch, lines=lines, obs=obs[:n], cycles=n, nbm=nbm)
+
+
+def mon_cfg_line(cfg):
+    t = cfg["timing"]; n = cfg["nphases"]
+    wl = -(-cfg["cwl"] // n)
+    def clk(cycles):
+        return 0 if not cycles else cycles * n - (n - 1)
+    twtp = wl + t["tWR"] + t["tCCD"]
+    twtr = t["tWTR"] + wl + t["tCCD"]
+    xs = [n, 1 << cfg["rankbits"], 1 << cfg["bankbits"], cfg["rdphase"], cfg["wrphase"], cfg["colbits"], cfg["align"],
+          clk(t["tRCD"]), clk(t["tRP"]), clk(t["tRAS"]), clk(t["tRC"]), clk(t["tRRD"]), clk(t["tFAW"]), clk(t["tCCD"]),
+          clk(twtp), clk(twtr), clk(t["tRFC"]), clk(t["tZQCS"])]
+    return " ".join(map(str, xs))
+
+
+def grant_bound(cfg):
+    """Explicit bound D(cfg), in controller cycles, on the time from the refresher's request to the first command of
+    the refresh sequence: every bank machine finishes at most one precharge/activate/access in flight (tRAS, write
+    recovery, tRP, tRC/tRRD/tFAW gates, tRCD), the multiplexer leaves a turnaround state (RTW / WTR), plus arbitration."""
+    t = cfg["timing"]; n = cfg["nphases"]
+    wl = -(-cfg["cwl"] // n)
+    nbm = (1 << cfg["rankbits"]) << cfg["bankbits"]
+    z = lambda v: v or 0
+    twtp = wl + t["tWR"] + t["tCCD"]
+    twtr = t["tWTR"] + wl + t["tCCD"]
+    return (z(t["tRAS"]) + twtp + t["tRP"] + z(t["tRC"]) + z(t["tFAW"]) + z(t["tRRD"]) * nbm + t["tRCD"] + twtr +
+            cfg["read_latency"] + 2 * t["tCCD"] + 2 * nbm + 16)
+
+
+def run_dram_monitor(cfg, lines, obs, nbm, timing=True):
+    """Evaluate the Lean DRAM specification monitor on the *implementation's* DFI trace.
+    lines[k+2] are the bank inputs of cycle k, obs[k] the observations (bank handshakes + DFI) of cycle k.
+    Returns (violation or None, ref_cycles)."""
+    ml = [mon_cfg_line(cfg)]
+    if not timing:      # structural / bank-state rules only: all minimum distances set to 0
+        ml = [" ".join(ml[0].split()[:7] + ["0"] * 11)]
+    nb = 1 << cfg["bankbits"]
+    for k in range(len(obs)):
+        o = obs[k].split()
+        ins = lines[k + 2].split()
+        acc = []
+        for i in range(nbm):
+            if ins[3 * i] == "1" and o[4 * i] == "1":      # valid & ready
+                acc += [i, int(ins[3 * i + 1]), int(ins[3 * i + 2])]
+        ml.append(" ".join(map(str, [len(acc) // 3] + acc)) + " " + " ".join(o[4 * nbm:]))
+    ml.append("999999")
+    out = core.run_driver("drammon", ml)
+    viol = next((x for x in out[1:-1] if x.startswith("VIOL")), None)
+    refs = [int(x) for x in out[-1].split()[1:]]
+    return viol, refs
